@@ -1,5 +1,6 @@
 import Driver.Common
 import UralModel.Model.HostnameTrieSet
+import UralModel.Model.HostnameTrieSetUrl
 /-! Driver handler for HostnameTrieSet histories (C09).
 
 `{"f":"hts","adds":[hostname…],"queries":[hostname|null…],"puny":[[label,decoded]…],"special":[hostname…]}`
@@ -8,7 +9,13 @@ adds): `{"len":…, "iter":[…], "match":[…]}`; `laws` says whether the `puny
 `PunyLaws.decoded` (the hypothesis of the punycode theorems).
 `queries` are the hostnames the real `safe_urlsplit(url).hostname` produced (`null` = `None`);
 `puny` is the table of the real `attempt_to_decode_idna` on the labels it is called with;
-`special` lists the hostnames on which the real `is_special_host` is true. -/
+`special` lists the hostnames on which the real `is_special_host` is true.
+
+With `"urls":[url|null…]` (parallel to `queries`) the query at a position holding a string is the
+URL string itself, taken through the model's own `safe_urlsplit` / `urlsplit` / `.hostname`
+(`HostnameTrieSet.matchUrl`, `Model/HostnameTrieSetUrl.lean`; `{"error":"ValueError"}` when the
+modelled `urlsplit` raises); a `null` position falls back to the hostname in `queries`.  The
+answer then also carries `"hosts"`: the hostname the model extracted from every URL string. -/
 open Lean Ural Ural.HostnameTrieSet
 
 namespace Driver.C09
@@ -26,26 +33,52 @@ def pair? (j : Json) : Option (List Char × List Char) :=
     | _ => none
   | _ => none
 
+/-- a query: a URL string already taken through the model's `safe_urlsplit` (`matchUrl` is
+`matchSplit` on that result), or a hostname shipped by the real parser -/
+inductive Query where
+  | url (r : Except TldUrl.Err Ural.Py.SplitResult)
+  | host (h : Option (List Char))
+
+def matchQuery (special : List Char → Bool) (puny : List Char → List Char) (t : T) : Query → Json
+  | .url (.ok r) => jbool (matchSplit special puny t r)
+  | .url (.error _) => jerr "ValueError"
+  | .host h => jbool (matchHost special puny t h)
+
 def observe (special : List Char → Bool) (puny : List Char → List Char) (t : T)
-    (queries : List (Option (List Char))) : Json :=
+    (queries : List Query) : Json :=
   Json.mkObj
     [ ("len", jnat (len t)),
       ("iter", jlist ((iter t).map fun h => jstr (unchars h))),
-      ("match", jlist (queries.map fun q => jbool (matchHost special puny t q))) ]
+      ("match", jlist (queries.map (matchQuery special puny t))) ]
+
+def zipQueries : List Json → List Json → List Query
+  | q :: qs, (.str u) :: us => .url (TldUrl.safeUrlsplit (chars u)) :: zipQueries qs us
+  | q :: qs, _ :: us => .host (optHost q) :: zipQueries qs us
+  | q :: qs, [] => .host (optHost q) :: zipQueries qs []
+  | [], _ => []
 
 def history (j : Json) : Json :=
   let table := (fieldArr j "puny").filterMap pair?
   let puny : List Char → List Char := fun l => (table.lookup l).getD l
   let specials := (fieldStrs j "special").map chars
   let special : List Char → Bool := fun h => specials.contains h
-  let queries := (fieldArr j "queries").map optHost
+  let urls := fieldArr j "urls"
+  let queries := zipQueries (fieldArr j "queries") urls
   let hosts := (fieldStrs j "adds").map chars
   let (_, outs) := hosts.foldl (fun (acc : T × List Json) h =>
     let t' := add special puny acc.1 h
     (t', observe special puny t' queries :: acc.2))
     (new, [observe special puny new queries])
   let laws := table.all fun (l, d) => !(hasHeader l) || d == l || !(hasHeader d)
-  Json.mkObj [("laws", jbool laws), ("states", jlist outs.reverse)]
+  let base := [("laws", jbool laws), ("states", jlist outs.reverse)]
+  let extra :=
+    if urls.isEmpty then []
+    else [("hosts", jlist (queries.map fun q =>
+      match q with
+      | .url (.ok r) => (match TldUrl.hostOf r with | some h => jstr (unchars h) | none => .null)
+      | .url (.error _) => jerr "ValueError"
+      | .host _ => .null))]
+  Json.mkObj (base ++ extra)
 
 def handle (f : String) (j : Json) : Option Json :=
   match f with
